@@ -225,7 +225,19 @@ def case_liesel(case, res):
     tracked = [nm for nm, ns in model.state.items() if ns.value is not None]
     b = gs.EngineBuilder(seed=case["engine_seed"], num_chains=2)
     b.show_progress = False
-    the_iface = gs.LieselInterface(model)
+    if case.get("legacy_interface"):
+        # the deprecated alias lsl.GooseModel, built from a model whose automatic updates the user had switched off
+        import warnings
+
+        import liesel.model as lsl_
+
+        model.auto_update = False
+        with warnings.catch_warnings():
+            warnings.simplefilter("ignore")
+            the_iface = lsl_.GooseModel(model)
+        res.ev("legacy_goosemodel_interface_auto_update_off")
+    else:
+        the_iface = gs.LieselInterface(model)
     b.set_model(the_iface)
     b.set_initial_values(model.state)
     if case.get("reused_kernels"):
@@ -373,6 +385,22 @@ def case_eager(case, res):
             if j not in kstates:
                 kstates[j] = k.init_state(k1, state)
             before = {p: np.asarray(v) for p, v in iface.extract_position(strong, state).items()}
+            if blk == "tau2":
+                # the tau2 kernel works on the state it is handed: with the prior scale b changed in that state (by a
+                # predecessor or by the user) the same key gives the draw of IG(a + rank/2, b' + q/2), i.e. the draw
+                # rescaled by (b' + q/2) / (b + q/2)
+                hyp = iface.extract_position(["b", "K", "b2"], state)
+                b0, K0, be0 = float(hyp["b"]), np.asarray(hyp["K"], np.float64), np.asarray(hyp["b2"], np.float64)
+                q = float(be0 @ K0 @ be0)
+                st_b = iface.update_state({"b": jnp.asarray(3.0 * b0 + 1.0, jnp.float32)}, state)
+                t_a = float(iface.extract_position(["tau2"], k.transition(k2, kstates[j], state, epoch).model_state)["tau2"])
+                t_b = float(iface.extract_position(["tau2"], k.transition(k2, kstates[j], st_b, epoch).model_state)["tau2"])
+                ratio = (3.0 * b0 + 1.0 + q / 2) / (b0 + q / 2)
+                res.mon("kernel_reads_hyperparameters_from_the_state_it_is_handed")
+                if not np.isfinite(t_a) or not np.isfinite(t_b) or abs(t_b / t_a - ratio) > 1e-3 * ratio:
+                    res.violation("kernel-ignores-state", f"tau2 kernel, same key: draw {t_a} from the state with b={b0}, draw {t_b} from the "
+                                  f"same state with b={3.0 * b0 + 1.0}; the conjugate update implies the ratio {ratio:.5f}, observed "
+                                  f"{t_b / t_a:.5f}", w)
             out = k.transition(k2, kstates[j], state, epoch)
             kstates[j] = out.kernel_state
             state = out.model_state
@@ -498,7 +526,8 @@ def gen_cases(tier, seed):
         spec = [[1, 6, 1], [2, 6, 1], [3, 6, 1], [4, 12, 1]] if i % 2 else [[3, 10, 1], [4, 20, 1]]
         heavy = (cfg["beta"] in ("nuts", "hmc")) + (cfg["sigma2"] == "nuts")
         cases.append({"kind": "liesel", "idx": i, "seed": seed, "cfg": cfg, "spec": spec, "engine_seed": int(rng.integers(2 ** 30)),
-                      "collide": bool(i % 4 == 3), "reused_kernels": bool(i % 3 == 1), "cost": 10 + 10 * heavy})
+                      "collide": bool(i % 4 == 3), "reused_kernels": bool(i % 3 == 1), "legacy_interface": bool(i % 4 == 2),
+                      "cost": 10 + 10 * heavy})
     for i in range(6 if q else 160):
         rng = rng_for(seed, "c09-gene", i)
         cfg = {"beta": str(rng.choice(["iwls", "rw"])), "sigma2": str(rng.choice(["rw", "mh"])),
